@@ -293,6 +293,59 @@ func init() {
 			}
 		}
 		c.Check(n >= 1, fk+" :: last-changed height is adjusted", w.pos(f.Pos()), "one lowering site", "Rollback no longer adjusts LastHeightValidatorsChanged")
+		// the adjustment only ever lowers: on the edge that replaces the carried-over value by L+c, the carried
+		// value is known to be at least L+c (L = the dropped state's last block height). Raising it claims a
+		// change at a height whose record is only a pointer.
+		for _, fs := range w.fieldStoresIn(f, "state", "State", "LastHeightValidatorsChanged") {
+			phi, ok := fs.Store.Val.(*ssa.Phi)
+			if !ok {
+				continue
+			}
+			isL := func(v ssa.Value) bool { return strings.HasSuffix(w.expr(v), ".LastBlockHeight") }
+			var carried ssa.Value
+			for _, e := range phi.Edges {
+				if strings.HasSuffix(w.expr(e), ".LastHeightValidatorsChanged") {
+					carried = e
+				}
+			}
+			if carried == nil {
+				continue
+			}
+			for i, e := range phi.Edges {
+				if e == carried {
+					continue
+				}
+				cOff, okC := offsetFrom(e, isL)
+				if !okC {
+					continue
+				}
+				g := Guard{Name: "the carried-over value is not below the value it is replaced by", Match: func(w *World, ff *ssa.Function, a Atom) bool {
+					if a.Kind != "cmp" {
+						return false
+					}
+					x, y, op := a.X, a.Y, a.Op
+					if sameValue(y, carried) || w.expr(y) == w.expr(carried) {
+						x, y, op = y, x, flipOp(op)
+					}
+					if !(sameValue(x, carried) || w.expr(x) == w.expr(carried)) {
+						return false
+					}
+					k, okK := offsetFrom(y, isL)
+					if !okK {
+						return false
+					}
+					switch op {
+					case token.GTR:
+						return k+1 >= cOff
+					case token.GEQ, token.EQL:
+						return k >= cOff
+					}
+					return false
+				}}
+				okG, _ := c.ge().guardedEdge(f, phi.Block().Preds[i], phi.Block(), g, 0)
+				c.Check(okG, fk+" :: the last-changed height is only ever lowered", w.ipos(fs.Store), "replaced only when it is at least the replacement", "LastHeightValidatorsChanged can be raised to "+w.expr(e)+" although the validators last changed earlier: the record for the next height then points at a record without a full set")
+			}
+		}
 	})
 
 	// ------------------------------------------------------------------ C08.R7
